@@ -6,6 +6,7 @@ import Driver.Migrate
 import Driver.Sizes
 import Driver.Golden
 import Driver.OsFs
+import Driver.Conc
 open Driver
 
 def runStateless (f : String → String) : IO Unit := do
@@ -33,5 +34,6 @@ def main (args : List String) : IO UInt32 := do
   | ["sizes"] => runStateless sizesLine; return 0
   | ["golden"] => runStateless goldenLine; return 0
   | ["fsdur"] => runStateless osfsLine; return 0
+  | ["conc"] => runStateless concLine; return 0
   | ["segment"] => runStateful ({} : SegSt) segLine; return 0
   | _ => IO.eprintln "usage: driver <suite>"; return 2
